@@ -13,7 +13,7 @@ import (
 )
 
 func main() {
-	mode := flag.String("mode", "loop", "loop|cli|regex|spec|print|explore")
+	mode := flag.String("mode", "loop", "loop|cli|regex|spec|print|fault|explore")
 	tier := flag.String("tier", "quick", "quick|thorough")
 	outDir := flag.String("out", "", "output directory")
 	flag.Parse()
@@ -38,6 +38,8 @@ func main() {
 		runSpec(w, *tier)
 	case "print":
 		runPrint(w, *tier)
+	case "fault":
+		runFault(w, *tier)
 	default:
 		fmt.Fprintln(os.Stderr, "unknown mode")
 		os.Exit(2)
